@@ -7,12 +7,16 @@ P("C23",
   technique="Coq proof over an executable model of the chunk buffer and of the transfer steps with an adversarial memory "
             "environment + exact correspondence by vm_compute (helper functions through a verif export; the real component "
             "tick by tick between two scripted byte memories); refutation witnesses for the known findings",
-  level_text="The buffer helpers are proved to implement a window over the flat source byte stream; under ByteSize a multiple of "
-             "both granularities and BufferSize >= both, theorems c23_* establish the copy/nothing-else-written/one-ack/serial "
-             "statements for the model (see Property.v for exactly which are proved and which are partial); "
-             "c23_unaligned_size_refuted and c23_small_buffer_refuted are the confirmed defects. Model and implementation are "
-             "compared exactly: every helper result (incl. panics), and per tick all drained requests with their generated IDs, "
-             "acknowledgments, progress and active flags, and the final memory images.",
+  level_text="Proved for every script of the model (any moves, any order/delay of the two memories, arbitrary injected "
+             "responses, any back-pressure): c23_serial_one_ack (arrived moves = acknowledged ++ in-progress ++ waiting, in order; "
+             "each ack carries the ID of the move it closes and goes to its requester; no move acknowledged twice; one at a time) "
+             "and, when every ByteSize is a multiple of both granularities, c23_nothing_else_written (every write request lies "
+             "inside the destination range of an arrived move, on its destination side) and c23_copy_exact_partial (structural "
+             "invariant of the transfer; an ack is sent only when the write cursor is exactly at the end of the range and nothing "
+             "is outstanding). NOT proved: the byte content of the copy (covered only by the exact tie: final memory images are "
+             "compared on every run). c23_unaligned_size_refuted and c23_small_buffer_refuted are the confirmed defects. Model "
+             "and implementation are compared exactly: every helper result (incl. panics), and per tick all drained requests "
+             "with their generated IDs, acknowledgments, progress and active flags, and the final memory images.",
   level_note="Trusted: Coq kernel + vm_compute; the Go harness (scripted memories, verif export wrappers that only convert types); "
              "the hand-written model of comp.go / ctrlparsemw.go / datatransfermw.go.",
   assumptions=["no control traffic (the data mover stays Enabled); single-port mappers on both sides",
